@@ -84,14 +84,23 @@ type TagScanner struct {
 	Records []TagRecord
 }
 
-func NewTagScanner(h *Handle, tag, nodeType string) *TagScanner {
+func NewTagScanner(h *Handle, tag, nodeType string, handler bool) *TagScanner {
 	if nodeType == "" {
 		nodeType = "Custom_" + tag
 	}
+	var eh func(meta *component_definition.Meta, field *component_definition.Field) (string, string, bool)
+	if handler {
+		// the handler recognises fields by the struct tag `<tag>h`
+		eh = func(meta *component_definition.Meta, field *component_definition.Field) (string, string, bool) {
+			v, ok := field.StructField.Tag.Lookup(tag + "h")
+			return "", v, ok
+		}
+	}
 	return &TagScanner{
 		DefaultTagScanDefinitionRegistryPostProcessor: processors.DefaultTagScanDefinitionRegistryPostProcessor{
-			NodeType: component_definition.PropertyType(nodeType),
-			Tag:      tag,
+			NodeType:       component_definition.PropertyType(nodeType),
+			Tag:            tag,
+			ExtractHandler: eh,
 		},
 		H: h,
 	}
